@@ -343,7 +343,7 @@ def execute(plan, prop, out, tr):
             raise Violation("C14.shape", ctx + ": shapes x%s u%s cost%s" % (X.shape, U.shape, Cst.shape), i, "shape")
         Qn, pn = npd(Q), npd(p)
         for b in range(B):
-            if np.abs(X[b, 0] - npd(x0)[b]).max() > 0:
+            if not (np.abs(X[b, 0] - npd(x0)[b]).max() <= 0):
                 raise Violation("C14.init", ctx + ": x[0] != x_init", i, "init")
             scale = 1 + np.abs(X[b]).max()
             if kind == "NLS":
@@ -353,14 +353,14 @@ def execute(plan, prop, out, tr):
             else:
                 As, Bs, cs = horizon_mats(b)
                 err = max(np.abs(As[t] @ X[b, t] + Bs[t] @ U[b, t] + cs[t] - X[b, t + 1]).max() for t in range(T))
-            if err > TOL_FEAS * scale * 100:
+            if not (err <= TOL_FEAS * scale * 100):
                 raise Violation("C14.feasible", ctx + ": returned trajectory violates x[t+1]=A_t x[t]+B_t u[t]+c1_t "
                                 "(t = 0..T-1) by %.3e (scale %.3e), batch item %d" % (err, scale, b), i,
                                 "feasible:" + keyctx)
             tau = np.concatenate([X[b, :T], U[b]], axis=-1)
             cc = sum(0.5 * tau[t] @ Qn[b, t] @ tau[t] + pn[b, t] @ tau[t] for t in range(T))
             cs_scale = 1 + sum(abs(0.5 * tau[t] @ Qn[b, t] @ tau[t]) + abs(pn[b, t] @ tau[t]) for t in range(T))
-            if abs(cc - Cst[b]) > TOL_COST * cs_scale * 100:
+            if not (abs(cc - Cst[b]) <= TOL_COST * cs_scale * 100):
                 raise Violation("C14.cost", ctx + ": reported cost %.12g, cost of the returned trajectory %.12g" %
                                 (Cst[b], cc), i, "cost:" + keyctx)
             if kind != "NLS":
@@ -372,7 +372,7 @@ def execute(plan, prop, out, tr):
                 gscale = np.abs(Hs).max() * (1 + np.abs(ur).max()) + 1
                 cscale = 1 + abs(cstar) + 0.5 * float(ur.reshape(-1) @ Hs @ ur.reshape(-1))
                 tol = TOL_OPT * max(1.0, np.sqrt(cond))
-                if gap > tol * cscale or np.abs(g).max() > tol * gscale * 10:
+                if not (gap <= tol * cscale and np.abs(g).max() <= tol * gscale * 10):
                     raise Violation("C14.optimal", ctx + ": cost of returned inputs exceeds the optimum by %.6g (optimum "
                                     "%.6g, returned %.6g), reduced gradient %.3e, cond %.2e, batch item %d" %
                                     (gap, cstar, gap + cstar, np.abs(g).max(), cond, b), i, "optimal:" + keyctx)
